@@ -60,7 +60,8 @@ def finish(ck: Checker, t0: float, seed: int, extra_cov=None) -> int:
     for o in ck.obligations:
         r = per_rule.setdefault(o.rule, {'instances': 0, 'ok': 0, 'violations': 0})
         r['instances'] += 1
-        r['ok' if o.status == 'ok' else 'violations'] += 1
+        key = {'ok': 'ok', 'violation': 'violations'}.get(o.status, 'undecided')
+        r[key] = r.get(key, 0) + 1
     # samples: every violation + up to 6 instances per rule
     samples = [o.to_json() for o in violations]
     seen_rule = {}
